@@ -72,6 +72,11 @@ const (
 	sigRotSameSecond  = "C10/log/rotation/records-lost/two-rotations-within-one-second" // KF-C10-4: rotated names have 1 s resolution
 	sigRotOverwritten = "C10/log/rotation/rotated-file-overwritten"
 	sigRotRemoved     = "C10/log/rotation/rotated-file-removed"
+	// age-based retention (LoggerConfig.MaxAge > 0: an hourly pass removes rotated files whose mtime is older than MaxAge)
+	sigRetLiveFile = "C10/log/retention/live-file-removed"
+	sigRetYoung    = "C10/log/retention/young-record-removed"
+	sigRetAgedLive = "C10/log/retention/live-block-record-aged-out" // KF-C10-5: the assign record of a block that is still held ages out
+	sigLiveMissing = "C10/log/live-file-missing"
 	sigConcDup        = "C10/concurrent/duplicate-allocate/two-blocks" // KF-C10-2
 	sigConcOverlapDea = "C10/concurrent/overlap/with-deallocations"    // KF-C10-1 seen under concurrent callers
 	sigConcOverlap    = "C10/concurrent/overlap/allocate-only"
@@ -95,6 +100,7 @@ type natCfg struct {
 	Started     bool  // Logger.Start(): 5 s flush ticker + flush-on-full-buffer goroutine, as cmd/bng does
 	FlushEvery  int   // the harness flushes (and reads the log back) after every FlushEvery-th operation; 0 = 1
 	Prone       bool  // the case may put two rotations into one clock second (see sigRotSameSecond)
+	MaxAge      time.Duration // age-based retention of rotated files (0 = keep everything); needs Started (the hourly pass is a goroutine of Start)
 }
 
 func (c natCfg) eff() (rs, re, pps int) {
@@ -129,6 +135,9 @@ func (c natCfg) String() string {
 	if c.MaxFileSize != 0 || c.Started || c.flushEvery() != 1 {
 		s += fmt.Sprintf(" maxFileSize=%d compress=%v started=%v flushEvery=%d prone=%v", c.MaxFileSize, c.Compress, c.Started, c.flushEvery(), c.Prone)
 	}
+	if c.MaxAge != 0 {
+		s += fmt.Sprintf(" maxAge=%s", c.MaxAge)
+	}
 	return s
 }
 
@@ -147,8 +156,19 @@ var maxFileSizes = []int64{100, 250, 400, 400, 700, 700, 1000, 1000, 1500, 1500,
 func genLogOpts(t *rapid.T, c *natCfg, maxPerFlush func(flushEvery int) int) {
 	c.FlushEvery = rapid.SampledFrom([]int{1, 1, 1, 2, 3, 4}).Draw(t, "flushEvery")
 	c.Started = rapid.IntRange(0, 2).Draw(t, "started") == 0
-	if rapid.IntRange(0, 4).Draw(t, "rotate?") == 0 {
-		return
+	if rapid.IntRange(0, 3).Draw(t, "retention?") == 0 {
+		// the retention pass runs hourly in a goroutine of Start(); the flush loop that Start() also runs re-allocates the
+		// whole entry buffer at each of its 5 s ticks, so keep the buffer small in histories that span hours
+		// (every 5 s tick of the flush loop is a scheduler round trip in the bubble: short MaxAge values keep the quiet
+		// periods, which must reach the next hourly retention pass, at 1-2 h)
+		c.MaxAge = rapid.SampledFrom([]time.Duration{5 * time.Minute, 5 * time.Minute, 20 * time.Minute, 20 * time.Minute, time.Hour}).Draw(t, "maxAge")
+		c.Started = true
+		if c.BufSize == 0 || c.BufSize > 10 {
+			c.BufSize = 10
+		}
+	}
+	if rapid.IntRange(0, 4).Draw(t, "rotate?") == 0 && (c.MaxAge == 0 || rapid.IntRange(0, 3).Draw(t, "retentionWithoutRotation") == 0) {
+		return // (retention only ever removes rotated files: most retention cases rotate)
 	}
 	c.MaxFileSize = rapid.SampledFrom(maxFileSizes).Draw(t, "maxFileSize")
 	// every rotation of a compressing logger allocates a gzip writer (~1 MB): fewer, larger files there
@@ -276,6 +296,7 @@ type env struct {
 	multiFlush  bool // a rotation happened during a flush that wrote more than one record
 	gzRead      bool // a compressed rotated file was read back
 	sawRotated  bool // a rotated file was seen in the directory at some read
+	prevLive    string // content of the live file at the last read of the whole set
 	cache       map[string]cachedFile // rotated files already read, keyed by name; valid while size, mtime and inode are unchanged
 
 	// without rotation (MaxFileSize == 0) the set is the one file: it is read incrementally through one handle
@@ -308,7 +329,7 @@ func newEnv(t fataler, dir string, cfg natCfg, zl *zap.Logger) *env {
 		return nil
 	}
 	e := &env{cfg: cfg, m: m, prevRot: map[string]string{}, cache: map[string]cachedFile{}}
-	if cfg.MaxFileSize > 0 {
+	if cfg.MaxFileSize > 0 || cfg.MaxAge > 0 {
 		e.dir = filepath.Join(dir, fmt.Sprintf("natlog-%d", fileCtr.Add(1)))
 		if err := os.Mkdir(e.dir, 0o755); err != nil {
 			t.Fatalf("harness: mkdir: %v", err)
@@ -319,14 +340,14 @@ func newEnv(t fataler, dir string, cfg natCfg, zl *zap.Logger) *env {
 		e.path = filepath.Join(dir, fmt.Sprintf("natlog-%d.json", fileCtr.Add(1)))
 	}
 	lg, err := nat.NewLogger(nat.LoggerConfig{Enabled: true, FilePath: e.path, Format: nat.LogFormatJSON,
-		BufferSize: cfg.BufSize, BulkLogging: cfg.Bulk, MaxFileSize: cfg.MaxFileSize, Compress: cfg.Compress}, zap.NewNop())
+		BufferSize: cfg.BufSize, BulkLogging: cfg.Bulk, MaxFileSize: cfg.MaxFileSize, Compress: cfg.Compress, MaxAge: cfg.MaxAge}, zap.NewNop())
 	if err != nil {
 		t.Fatalf("harness: NewLogger: %v", err)
 		return nil
 	}
 	e.lg = lg
 	m.SetLogger(lg)
-	if cfg.MaxFileSize == 0 {
+	if e.dir == "" {
 		if e.rf, err = os.Open(e.path); err != nil {
 			t.Fatalf("harness: open log for reading: %v", err)
 			return nil
@@ -347,6 +368,77 @@ func (e *env) start() {
 	if e.cfg.Started && e.inBubble {
 		e.lg.Start()
 	}
+}
+
+// stampMtimes gives every file the logger has written since the last call the mtime a real system would show: the
+// current (virtual) time.  Inside a bubble the logger compares file mtimes with a virtual clock that starts in the year
+// 2000, while the file system stamps writes with the real clock; without this no file would ever look old.  A rotated
+// file keeps the stamp of its last write across the rename, as on a real system.
+func (e *env) stampMtimes() {
+	if e.cfg.MaxAge == 0 || !e.inBubble || e.dir == "" {
+		return
+	}
+	ents, err := os.ReadDir(e.dir)
+	if err != nil {
+		return
+	}
+	now := time.Now()
+	for _, en := range ents {
+		if fi, err := en.Info(); err == nil && fi.ModTime().Year() >= 2020 {
+			p := filepath.Join(e.dir, en.Name())
+			_ = os.Chtimes(p, now, now)
+		}
+		// remember every rotated file as soon as it exists: a retention pass may remove it before the next read of the
+		// whole set, and the model has to know which records went with it
+		n := en.Name()
+		if !strings.HasPrefix(n, logBase+".") {
+			continue
+		}
+		logical := strings.TrimSuffix(n, ".gz")
+		if _, ok := e.prevRot[logical]; ok {
+			continue
+		}
+		b, err := os.ReadFile(filepath.Join(e.dir, n))
+		if err != nil {
+			continue
+		}
+		if strings.HasSuffix(n, ".gz") {
+			zr, err := gzip.NewReader(bytes.NewReader(b))
+			if err != nil {
+				continue
+			}
+			if b, err = io.ReadAll(zr); err != nil {
+				continue
+			}
+		}
+		e.prevRot[logical] = string(b)
+		e.rotations++
+		e.sawRotated = true
+	}
+}
+
+// advance lets d of virtual time pass.  A long advance is split: whatever the 5 s flush tick writes gets its mtime
+// before the hours pass.
+func (e *env) advance(d time.Duration) {
+	if d <= 0 {
+		return
+	}
+	// An hourly retention pass lies inside this sleep: write out what is buffered first (as the 5 s tick would), so that
+	// every rotation happens where the harness sees the rotated file before a retention pass can remove it.  (Otherwise
+	// a flush tick inside the sleep could rotate the live file and the pass inside the same sleep remove the rotated
+	// file - legitimately, its last write being older than MaxAge - without the harness ever having seen it.)
+	if since := time.Since(seqBase); e.cfg.MaxAge > 0 && e.inBubble && (since+d)/time.Hour > since/time.Hour {
+		e.flush(true)
+	}
+	if e.cfg.MaxAge > 0 && d > 10*time.Second {
+		time.Sleep(6 * time.Second)
+		e.settle()
+		e.stampMtimes()
+		d -= 6 * time.Second
+	}
+	time.Sleep(d)
+	e.settle()
+	e.stampMtimes()
 }
 
 // settle waits until every goroutine of the case (flush loop, compressors) is idle.
@@ -445,6 +537,8 @@ type logState struct {
 	files       []logFile
 	overwritten string // a rotated file seen before whose content is now different
 	removed     string // a rotated file seen before that is gone
+	removedAll  map[string]string // every rotated file seen before that is gone -> the content it had
+	liveMissing bool              // the live file (the configured path) does not exist
 	nowStamped  bool   // a rotated file stamped with the current clock second exists
 	rotated     bool   // the rotated set changed since the last read
 }
@@ -460,6 +554,7 @@ func (e *env) flush(all bool) {
 		e.lg.FlushPortBlocks()
 	}
 	e.settle()
+	e.stampMtimes()
 }
 
 // readAll flushes the logger and reads back EVERY file of the rotated set: rotated files oldest first (by the
@@ -474,11 +569,12 @@ func (e *env) readAll(all bool, pending int) (*logState, error) {
 	if err != nil {
 		return nil, fmt.Errorf("harness: read log directory: %w", err)
 	}
-	st := &logState{}
+	st := &logState{removedAll: map[string]string{}}
 	have := map[string]bool{}
 	for _, en := range ents {
 		have[en.Name()] = true
 	}
+	st.liveMissing = !have[logBase]
 	for _, en := range ents {
 		n := en.Name()
 		f := logFile{name: n, logical: n}
@@ -610,10 +706,38 @@ func (e *env) readAll(all bool, pending int) (*logState, error) {
 		switch {
 		case !ok:
 			st.removed = name
+			st.removedAll[name] = old
 		case cur != old:
 			st.overwritten = name
 		}
 	}
+	// The live file as it was last seen may have been rotated away AND removed (retention) since: a flush tick inside
+	// a long sleep rotates it, the hourly pass inside the same sleep finds its last write older than MaxAge.  Its
+	// content is then in no file any more and must be accounted for like any other removed rotated file.
+	curLive := ""
+	for _, f := range st.files {
+		if f.current {
+			curLive = f.content
+		}
+	}
+	if e.prevLive != "" && !strings.HasPrefix(curLive, e.prevLive) {
+		found := false
+		for _, c := range nowRot {
+			if strings.HasPrefix(c, e.prevLive) {
+				found = true
+			}
+		}
+		for _, c := range st.removedAll {
+			if strings.HasPrefix(c, e.prevLive) {
+				found = true
+			}
+		}
+		if !found {
+			st.removed = "<the live file as last seen, rotated since>"
+			st.removedAll[st.removed] = e.prevLive
+		}
+	}
+	e.prevLive = curLive
 	for name := range nowRot {
 		if _, ok := e.prevRot[name]; !ok {
 			st.rotated = true
@@ -672,12 +796,20 @@ type model struct {
 	violMsg      string
 	wantA, wantR map[int]int // blocks handed out / released per subscriber = records the log must hold
 	pending      int         // records produced since the last flush
+	forgotA      map[int]int // records that aged out with a rotated file older than MaxAge (what retention documents)
+	forgotR      map[int]int
+	forgotAssign map[string]int // "sub/pub/start" of aged-out assign records
+	forgotLeft   map[string]int // per replay: aged-out assign records not yet matched by a release record
+	agedLive     map[int]bool   // holders whose assign record aged out while they hold the block (KF-C10-5, listed)
+	retRemoved   bool           // a retention pass removed an aged rotated file
+	retQuiet     bool           // the clock was advanced by more than MaxAge in one go
+	retNear      bool           // operations were placed just before an hourly retention pass
 	sinceFlush   int         // operations since the last flush
 }
 
 func newModel(cfg natCfg, pubs []string, strictLog bool) *model {
 	m := &model{cfg: cfg, pubs: pubs, live: map[int]block{}, subID: map[int]uint32{}, strictLog: strictLog, everReleased: map[string]bool{},
-		wantA: map[int]int{}, wantR: map[int]int{}}
+		wantA: map[int]int{}, wantR: map[int]int{}, forgotA: map[int]int{}, forgotR: map[int]int{}, forgotAssign: map[string]int{}, agedLive: map[int]bool{}}
 	m.rs, m.re, m.pps = cfg.eff()
 	return m
 }
@@ -875,6 +1007,7 @@ func (m *model) onDealloc(t fataler, sub int, err error) bool {
 	}
 	m.everReleased[fmt.Sprintf("%s/%d", b.Pub, b.Start)] = true
 	delete(m.live, sub)
+	delete(m.agedLive, sub)
 	m.wantR[sub]++
 	m.pending++
 	return true
@@ -948,6 +1081,10 @@ func (m *model) applyLog(t fataler, recs []logRec) {
 					}
 				}
 			}
+			if k := fmt.Sprintf("%d/%s/%d", sub, r.Pub, r.Start); idx < 0 && m.forgotLeft[k] > 0 {
+				m.forgotLeft[k]-- // the assign record of this release aged out with its file (retention)
+				continue
+			}
 			if idx < 0 {
 				m.fail(t, sigLogRelease, "release record for a block the log never assigned: %s", r.Raw)
 				return
@@ -978,6 +1115,19 @@ func (m *model) checkLog(t fataler) {
 			if iv.Pub == b.Pub && iv.Start <= b.End && b.Start <= iv.End {
 				cover = append(cover, iv)
 			}
+		}
+		if len(cover) == 0 && m.forgotAssign[fmt.Sprintf("%d/%s/%d", s, b.Pub, b.Start)] > 0 {
+			// Retention removed the rotated file that held the assign record of a block that is STILL held: from now on
+			// no port of it can be attributed.  Listed (KF-C10-5): counted once per holder, the holder is left out.
+			if !vstat.IsListed(sigRetAgedLive) {
+				m.fail(t, sigRetAgedLive, "retention (MaxAge=%s) removed the only record that attributes %v to s%d, which still holds it", m.cfg.MaxAge, b, s)
+				return
+			}
+			if !m.agedLive[s] {
+				m.agedLive[s] = true
+				vstat.Known(sigRetAgedLive)
+			}
+			continue
 		}
 		if len(cover) == 0 {
 			m.fail(t, sigLogNotAttr, "no log record attributes %v (held by s%d) to anybody", b, s)
@@ -1035,6 +1185,7 @@ func (m *model) step(t fataler, e *env, alloc bool, sub int, form16 bool) {
 		m.onDealloc(t, sub, err)
 	}
 	e.settle()
+	e.stampMtimes()
 	if m.dead {
 		return
 	}
@@ -1068,6 +1219,54 @@ func (m *model) syncLog(t fataler, e *env, all bool) {
 		m.fail(t, sigLogUnparsable, "%v", err)
 		return
 	}
+	if st.liveMissing && e.dir != "" {
+		if m.cfg.MaxAge > 0 {
+			m.fail(t, sigRetLiveFile, "the live log file %s does not exist any more (retention with MaxAge=%s is running; the logger keeps writing to its descriptor)", logBase, m.cfg.MaxAge)
+		} else {
+			m.fail(t, sigLiveMissing, "the live log file %s does not exist", logBase)
+		}
+		return
+	}
+	if m.cfg.MaxAge > 0 && e.inBubble && len(st.removedAll) > 0 {
+		// Retention may remove rotated files whose last write is older than MaxAge - and nothing younger.  The records of
+		// such a file are forgotten by the model (and only those).
+		now := time.Now()
+		names := make([]string, 0, len(st.removedAll))
+		for n := range st.removedAll {
+			names = append(names, n)
+		}
+		sort.Strings(names)
+		for _, n := range names {
+			var recs []logRec
+			for _, line := range strings.Split(st.removedAll[n], "\n") {
+				if line = strings.TrimSpace(line); line != "" {
+					if r, err := parseRec([]byte(line)); err == nil && r.Kind != "" {
+						recs = append(recs, r)
+					}
+				}
+			}
+			for _, r := range recs {
+				if r.TS.After(now.Add(-m.cfg.MaxAge)) {
+					m.fail(t, sigRetYoung, "rotated file %s is gone although it held a record only %s old (MaxAge=%s): %s", n, now.Sub(r.TS), m.cfg.MaxAge, r.Raw)
+					return
+				}
+			}
+			for _, r := range recs {
+				sub := subOfPriv(r.Priv)
+				if sub < 0 {
+					continue
+				}
+				if r.Kind == "assign" {
+					m.forgotA[sub]++
+					m.forgotAssign[fmt.Sprintf("%d/%s/%d", sub, r.Pub, r.Start)]++
+				} else {
+					m.forgotR[sub]++
+				}
+			}
+			m.retRemoved = true
+		}
+		st.removed = ""
+	}
 	nA, nR := map[int]int{}, map[int]int{}
 	for _, r := range st.recs {
 		if sub := subOfPriv(r.Priv); sub >= 0 {
@@ -1090,7 +1289,7 @@ func (m *model) syncLog(t fataler, e *env, all bool) {
 		for _, k := range []struct {
 			kind      string
 			got, want int
-		}{{"allocate", nA[s], m.wantA[s]}, {"deallocate", nR[s], m.wantR[s]}} {
+		}{{"allocate", nA[s], m.wantA[s] - m.forgotA[s]}, {"deallocate", nR[s], m.wantR[s] - m.forgotR[s]}} {
 			switch {
 			case k.got < k.want:
 				sig := sigLogMissing + "/" + k.kind
@@ -1115,6 +1314,10 @@ func (m *model) syncLog(t fataler, e *env, all bool) {
 		}
 	}
 	m.logTab = nil
+	m.forgotLeft = map[string]int{}
+	for k, v := range m.forgotAssign {
+		m.forgotLeft[k] = v
+	}
 	m.applyLog(t, st.recs)
 	m.checkLog(t)
 }
@@ -1157,6 +1360,18 @@ func (m *model) classes() []string {
 	}
 	if (m.re-m.rs+1)%m.pps != 0 {
 		cls = append(cls, "non-dividing")
+	}
+	if m.retQuiet {
+		cls = append(cls, "retention:quiet-period>MaxAge")
+	}
+	if m.retRemoved {
+		cls = append(cls, "retention:aged-rotated-file-removed")
+	}
+	if m.retNear {
+		cls = append(cls, "retention:writes-just-before-a-pass")
+	}
+	if len(m.agedLive) > 0 {
+		cls = append(cls, "kf:"+sigRetAgedLive)
 	}
 	if m.dead {
 		cls = append(cls, "kf:"+m.hitSig)
@@ -1226,6 +1441,9 @@ func (e *env) rotClasses() []string {
 	}
 	if e.cfg.MaxFileSize != 0 && e.cfg.Prone {
 		cls = append(cls, "rot:same-second-prone")
+	}
+	if e.cfg.MaxAge != 0 && e.inBubble {
+		cls = append(cls, "retention:on")
 	}
 	return cls
 }
